@@ -57,6 +57,8 @@ def run(ctx):
     rules["TS-tagbit"] = tagbit_access(ctx, m)
     rules["IDX-ensure"] = loop_item_index(ctx, m)
     rules["SB-loopitem"] = loop_item_fields(ctx, m)
+    from rules.common import rule_inline_if_ranges
+    rules["PR-subrange"] = rule_inline_if_ranges(ctx, m)
     from rules.common import rule_stream_past, rule_out_params, rule_null_first
     rules["NULL-first"] = rule_null_first(ctx, m, ["Value.hpp", "Template.hpp", "JSON.hpp", "HArray.hpp", "HList.hpp"])
     rules["ZB-past"] = rule_stream_past(ctx, m)
